@@ -240,6 +240,7 @@ CHECKS["C16"] = {
         {"part": "closest", "pkg": FRT, "test": "TestVerif_C16_Closest", "quick": 1500, "thorough": 25000},
         {"part": "swap", "pkg": FRT, "test": "TestVerif_C16_Swap", "quick": 300, "thorough": 3000, "shards": 4},
         {"part": "empty", "pkg": FRT, "test": "TestVerif_C16_Empty", "quick": 300, "thorough": 3000},
+        {"part": "crawler", "pkg": "./crawler/", "test": "TestVerif_C16_Crawler", "quick": 1500, "thorough": 20000},
     ],
 }
 
